@@ -416,6 +416,11 @@ func ruleC11(c *Ctx) {
 		c.check(okNil && okEmpty, "C11-R2", shortFn(dk.Root), "absent / empty digest selects SHA-1", "-", "sha1.New on both", "absent DigestMethod or empty Algorithm does not select SHA-1")
 	}
 
+	// R6 key-unwrap flow
+	if dk != nil {
+		keyUnwrapFlow(c, "C11-R6", dk)
+	}
+
 	// R3
 	tableAgreement(c, "C11-R3", encryptionSelectors(c), 4)
 
@@ -886,3 +891,74 @@ func unitOK(d Val, hours string) bool {
 
 var _ = sort.Strings
 var _ *ssa.Function
+
+// keyUnwrapFlow: on every accepting path of DecryptSymmetricKey the symmetric key handed to the block-cipher constructor is
+// the complete RSA plaintext of the complete base64-decoded CipherValue — whatever its length — obtained with the
+// primitive the transport identifier names. A fixed-length / pre-filled session-key API (DecryptPKCS1v15SessionKey)
+// or a re-sliced key makes the round trip depend on the key size.
+func keyUnwrapFlow(c *Ctx, rule string, dk *Result) {
+	c.rule(rule, "key unwrap flow: accepting paths of DecryptSymmetricKey return NewCipher(k) with k = result 0 of rsa.DecryptOAEP (for the rsa-oaep identifiers) or rsa.DecryptPKCS1v15 (for rsa-1_5) under err == nil, applied to base64(CipherValue) whole and the certificate's private key; OAEP label nil")
+	fname := shortFn(dk.Root)
+	want := map[string]string{
+		"http://www.w3.org/2001/04/xmlenc#rsa-oaep-mgf1p": "crypto/rsa.DecryptOAEP",
+		"http://www.w3.org/2009/xmlenc11#rsa-oaep":        "crypto/rsa.DecryptOAEP",
+		"http://www.w3.org/2001/04/xmlenc#rsa-1_5":        "crypto/rsa.DecryptPKCS1v15",
+	}
+	n := 0
+	seen := map[string]bool{}
+	for _, t := range dk.Terms {
+		if !t.accepting(dk.Root) {
+			continue
+		}
+		n++
+		pos := c.P.InstrPos(t.Instr)
+		blk, ok := stripIface(t.Vals[0]).(*CallV)
+		if !ok || blk.Idx != 0 || !(blk.Callee == "crypto/aes.NewCipher" || blk.Callee == "crypto/des.NewTripleDESCipher") || len(blk.Args) != 1 {
+			c.bad(rule, fname, "returned block is a cipher over the unwrapped key", pos, "accepting path returns "+ap(t.Vals[0])+", not a block cipher constructed from the unwrapped key")
+			continue
+		}
+		k, ok := blk.Args[0].(*CallV)
+		if !ok || k.Idx != 0 || !(k.Callee == "crypto/rsa.DecryptOAEP" || k.Callee == "crypto/rsa.DecryptPKCS1v15") {
+			c.bad(rule, fname, "symmetric key is the whole RSA plaintext", pos, "the key given to "+shortName(blk.Callee)+" is "+ap(blk.Args[0])+", not result 0 of rsa.DecryptOAEP / rsa.DecryptPKCS1v15 (a fixed-size or partially filled key breaks the round trip for other key sizes)")
+			continue
+		}
+		// err == nil on the path
+		var errv Val
+		for _, e := range t.calls(k.Callee) {
+			if len(e.Res) == 2 {
+				errv = e.Res[1]
+			}
+		}
+		isNil, known := false, false
+		if errv != nil {
+			isNil, known = t.eqFact(errv, nilOf(errv.Type()))
+		}
+		c.check(known && isNil, rule, fname, "unwrap error checked before the key is used", pos, "err == nil", "the RSA unwrap error is not known to be nil where the key is used")
+		// transport identifier -> primitive
+		a := t.atoms()
+		for id, prim := range want {
+			if a["EK.EncryptionMethod.Algorithm == \""+id+"\""] {
+				seen[id] = true
+				c.check(k.Callee == prim, rule, fname, "transport "+id+" uses its primitive", pos, shortName(prim), "key transport "+id+" is unwrapped with "+shortName(k.Callee))
+			}
+		}
+		// ciphertext and key operands
+		var ct, pk, label Val
+		if k.Callee == "crypto/rsa.DecryptOAEP" {
+			pk, ct, label = k.Args[2], k.Args[3], k.Args[4]
+		} else {
+			pk, ct = k.Args[1], k.Args[2]
+		}
+		wantCT := "(*encoding/base64.Encoding).DecodeString(encoding/base64.StdEncoding, EK.CipherValue)#0"
+		c.check(ap(ct) == wantCT, rule, fname, "ciphertext is base64(CipherValue), whole", pos, wantCT, "RSA ciphertext operand is "+ap(ct))
+		c.check(strings.HasPrefix(ap(pk), "CERT.PrivateKey.("), rule, fname, "private key operand", pos, ap(pk), "RSA unwrap uses "+ap(pk))
+		if label != nil {
+			c.check(isNilConst(label), rule, fname, "OAEP label is nil", pos, "nil", "OAEP label is "+ap(label))
+		}
+	}
+	c.count(rule+"/accepting-paths", n)
+	c.floor(rule+"/accepting-paths", 4)
+	for id := range want {
+		c.check(seen[id], rule, fname, "transport "+id+" has an accepting path", "-", "seen", "no accepting path for key transport "+id)
+	}
+}
